@@ -36,7 +36,8 @@ RootsOK(rs) == \A i \in DOMAIN rs : RootOK(rs[i])
 -----------------------------------------------------------------------------
 (* model checking: every property for every option set and skip list, in every reachable tree *)
 CONSTANTS CheckSkips     \* indices of SkipLists used by the invariants
-InvDesign    == \A o \in Opts, s \in CheckSkips : DesignOK(o, SkipLists[s])
+InvDesign    == \A o \in Opts : LET ap == AccessPaths(o) IN
+                    NothingBeyondBound(ap, o) /\ \A s \in CheckSkips : DesignOKFrom(ap, o, SkipLists[s])
 InvAlgebra   == \A o \in Opts, s \in CheckSkips : Algebra(o, SkipLists[s])
 InvUnderRoot == \A o \in {o \in Opts : o.file /\ o.dir}, s \in CheckSkips \cap {1, 3}, r \in 2..Len(RootSets) :
                    RootsOK(RootSets[r]) => \A i \in DOMAIN RootSets[r] : UnderRoot(RootSets[r][i], o, SkipLists[s])
@@ -46,7 +47,8 @@ InvUnderRoot == \A o \in {o \in Opts : o.file /\ o.dir}, s \in CheckSkips \cap {
 (* predicts.  exp = documented; dev = with the named deviation LinkDirAsFile, present only where it differs.         *)
 (* s / r index SkipLists / RootSets; the strings are in the TABLE printed once (from the empty tree).                *)
 CONSTANTS FullUpTo,      \* trees with at most this many entries get every (options, skip list, root set) combination
-          MinNodes       \* only trees with at least this many entries are exported
+          MinNodes,      \* only trees with at least this many entries are exported
+          OnlyCyclic     \* export only trees with a link cycle (the acyclic ones come from another configuration)
 NodeJson(n) == [path |-> n.path, kind |-> n.kind, target |-> n.target]
 Strs(es) == [i \in DOMAIN es |-> Out(es[i])]
 HasDirLink == \E n \in tree : n.kind = "ldir"
@@ -76,8 +78,10 @@ BigCombos == (O12 \X {1, 2} \X {1}) \cup (O4 \X (3..Len(SkipLists)) \X {1})
 Combos == { c \in IF Cardinality(tree) <= FullUpTo THEN Opts \X (1..Len(SkipLists)) \X (1..Len(RootSets))
                                                    ELSE BigCombos :
               RootsOK(RootSets[c[3]]) /\ SkipRelevant(c[2]) }
+(* cyc: the tree has a link cycle, so that RefuseRootAndLexicalAncestors decides some run (the orchestrator counts) *)
 Emit == /\ tree = {} => PrintT(<<"TABLE", ToJson(Table)>>)
-        /\ Cardinality(tree) >= MinNodes =>
+        /\ (Cardinality(tree) >= MinNodes /\ (OnlyCyclic => ~Acyclic)) =>
              PrintT(<<"CASE", ToJson([nodes |-> SetToSeq({NodeJson(n) : n \in tree}),
+                                      cyc   |-> ~Acyclic,
                                       runs  |-> SetToSeq({RunJson(c[1], c[2], c[3]) : c \in Combos})])>>)
 =============================================================================
